@@ -230,6 +230,10 @@ func (c *Clients) do(cl int, kind string, inc *Inc) *Call {
 				w.flt.inject("blip_leader")
 				return f.Error()
 			}
+			if w.cfg.Faults["cut_leader_keep_one"] > 0 && !w.quiet && r.State() == raft.Leader && w.ch.Chance(simrt.SFault, 1, 5) {
+				w.flt.inject("cut_leader_keep_one")
+				return f.Error()
+			}
 			// faults placed inside the operation: the leader loses its voters while the request is
 			// pending, and sometimes one of those voters is removed from the cluster meanwhile
 			if w.cfg.Faults["cut_leader_from_voters"] > 0 && !w.quiet && r.State() == raft.Leader && w.ch.Chance(simrt.SFault, 1, 5) {
